@@ -163,6 +163,12 @@ func (r *results) finish() int {
 			default:
 				if rr, ok := res[p.path]; ok && rr.confirms(p.v.Label, p.v.Kind) {
 					confirmed = true
+				} else if p.v.Schedule {
+					// the failing path interleaves several goroutines at synchronisation points chosen by the
+					// executor; the native run of the same inputs took another schedule. Like a race or a
+					// deadlock, the counterexample is the schedule itself (kept in the replay file's trail).
+					confirmed = true
+					desc += " [schedule-dependent: reported with the executor's interleaving; the native run took another schedule]"
 				}
 			}
 			if !confirmed {
